@@ -185,7 +185,7 @@ Variable st0 : S.
 Hypothesis H0 : Rep st0 [] [].
 
 Lemma gzip_xz_istream_transparent_l : forall Z P ws ops acc e s',
-  Stream Member Z P -> wants_ok ops ->
+  Stream Member Z P ->
   reader (mk_zlib C true) bufsz (istream_init st0 Z ws) ops [] = (acc, e, s') ->
   prefix acc P /\ e <> RErr /\ e <> RFuel /\ (e = REof -> acc = P) /\
   (takes_ok ops -> length P < length ops -> e = REof /\ acc = P).
@@ -195,7 +195,7 @@ Proof.
 Qed.
 
 Lemma gzip_xz_truncated_is_error_l : forall zs ps x y p ws ops acc e s',
-  Stream Member zs ps -> Member (x ++ y) p -> x <> [] -> y <> [] -> wants_ok ops ->
+  Stream Member zs ps -> Member (x ++ y) p -> x <> [] -> y <> [] ->
   reader (mk_zlib C true) bufsz (istream_init st0 (zs ++ x) ws) ops [] = (acc, e, s') ->
   e <> REof /\ e <> RFuel /\ prefix acc (ps ++ p) /\
   (takes_ok ops -> length (ps ++ p) < length ops -> e = RErr).
